@@ -57,22 +57,10 @@ def run(ck, ctx):
         ck.ob("T-FLAGFLOW.output_mode", f"output_mode read in {f.qual}", ok,
               "the parser (lexer rules, actions, line machine) must not consult the output mode: a mode may only filter presentation",
               f.loc(node))
-    run_f = m.parser_method("run")
-    for n in ast.walk(run_f.node):
-        if isinstance(n, ast.Name) and n.id == "output_mode" and isinstance(n.ctx, ast.Load):
-            par = _parent(run_f.node, n)
-            ok = (isinstance(par, ast.Compare) and "dialect_by_name" in ast.unparse(par)) or \
-                 (isinstance(par, ast.keyword) and par.arg == "output_mode")
-            ck.ob("T-FLAGFLOW.output_mode", f"Parser.run uses output_mode in `{ast.unparse(par)[:50]}`", ok,
-                  "in run() the mode may only be validated and handed to Output(...)", run_f.loc(n))
-    ck.floor("T-FLAGFLOW.output_mode", 2)
-    outputs = [n for n in ast.walk(run_f.node) if isinstance(n, ast.Call) and isinstance(n.func, ast.Name) and n.func.id == "Output"]
-    for call in outputs:
-        kws = {k.arg: ast.unparse(k.value) for k in call.keywords}
-        ck.ob("T-FLAGFLOW.output_mode", "Output(parser_output=self.tables, ...)", kws.get("parser_output") == "self.tables"
-              and kws.get("output_mode") == "output_mode", str(kws), run_f.loc(call))
+    # what run() does with the mode - validate it, hand it to the formatter, return the formatter's result - is decided by evaluating it
+    _check_run_modes(ck, ctx, dc)
     S.t_dom(ck, ctx, "run",
-            lambda n: isinstance(n, ast.If) and "dialect_by_name" in ast.unparse(n.test) and "output_mode" in ast.unparse(n.test),
+            lambda n: isinstance(n, ast.If) and "output_mode" in ast.unparse(n.test) and any(isinstance(x, ast.Raise) for x in ast.walk(n)),
             S.is_self_call("parse_data"), "Parser.run: mode validation dominates parse_data()",
             "an unknown mode is rejected before anything is parsed; a known mode never raises here")
     # ---- no process-wide state in the formatter (a cache keyed without the mode makes one mode's presentation leak into another)
@@ -139,6 +127,39 @@ def run(ck, ctx):
     ck.assumptions += ["dataclasses' field-collection rule (reverse MRO overlay) and Field.metadata semantics as in CPython 3.12",
                        "declined: deep equality of values across modes at run time; it follows from non-interference (T-FLAGFLOW) plus "
                        "the mode-specific code touching only non-common keys (T-MODE.hooks)"]
+
+
+def _check_run_modes(ck, ctx, dc):
+    """Parser.run evaluated abstractly (parse_data replaced by a given parser output) in every mode: it returns exactly what the
+    formatter, constructed with that mode, returns for that parser output - however run() is written"""
+    import copy
+    from ..objabs import run_tail, format_output, ShapeMismatch
+    from ..pyabs import W, PyRaise, Raised, LexUnknown, NonUniform, deep_eq
+
+    def w(*xs):
+        return W(list(xs) + list(xs)[: 6 - len(xs)])
+    po = [{"table_name": w("t", "Orders", "x_1"), "schema": w("s", "Sales", "s_1"), "primary_key": None, "index": [], "partitioned_by": [], "tablespace": None,
+           "checks": [], "stored_as": w("ORC", "parquet", "x"), "location": w("'/a'", "'/B/c'", "'x'"),
+           "columns": [{"name": w("a", "Col", "c_1"), "type": w("int", "TEXT", "num_9"), "size": None, "references": None, "unique": False,
+                        "primary_key": False, "nullable": True, "default": None, "check": None}]},
+          {"schema": None, "sequence_name": w("s1", "Seq", "q_2"), "increment": 1}]
+    for mode in sorted(dc.dialect_by_name):
+        for grouped in (False, True):
+            try:
+                want = format_output(ctx, copy.deepcopy(po), mode, grouped)
+                got, _d = run_tail(ctx, copy.deepcopy(po), output_mode=mode, group_by_type=grouped)
+                try:
+                    ok = deep_eq(got, want) and type(got) is type(want)
+                except NonUniform:
+                    ok = False
+                detail = "" if ok else f"run() returns {got!r:.200}, the formatter {want!r:.200}"
+            except (PyRaise, Raised) as e:
+                ok, detail = False, f"raises {e}"
+            except (LexUnknown, NonUniform, ShapeMismatch) as e:
+                raise AnalysisError(f"Parser.run outside the interpreted subset (mode {mode}): {e}")
+            ck.ob("T-FLAGFLOW.output_mode", f"run(output_mode={mode!r}, group_by_type={grouped}) returns the formatter's result for that mode", ok,
+                  "in run() the mode is validated and handed to Output(...); the result is the formatter's" + ("" if ok else "; " + detail),
+                  "Parser.run (evaluated abstractly)")
 
 
 def _parent(root, node):
